@@ -1,6 +1,9 @@
 package props
 
 import (
+	"fmt"
+	"go/ast"
+	"go/types"
 	"sort"
 	"strings"
 
@@ -72,6 +75,7 @@ func runC09(c *engine.Ctx, tier string) {
 	for _, rel := range []string{pkgProposalCtl, pkgTransactionCtl, pkgConfigCtl, pkgMastershipCtl} {
 		transientReturned(c, "C09.5/"+strings.TrimPrefix(rel, "pkg/controller/v2/"), rel)
 	}
+	controllerWiring(c)
 }
 
 // returnsNoWake matches a root return that carries neither a re-queue nor an error.
@@ -228,4 +232,134 @@ func toleratedClass(callee, cls string) bool {
 		return cls == "errors.IsNotFound"
 	}
 	return false
+}
+
+// controllerWiring: C09.7. Every watcher a controller package defines is registered by its constructor.
+func controllerWiring(c *engine.Ctx) {
+	o := c.Custom("C09.7", "K-table(controller wiring)", "in each v2 controller package, NewController registers (c.Watch) every type of the package that has Start(chan<- controller.ID) and Stop(), registers one reconciler (c.Reconcile), and every interface-typed field of those literals is set from a constructor parameter",
+		"an event source that is not watched strands whoever waits for its events; a watcher or reconciler built without its store panics or never sees anything")
+	defer o.Done(10)
+	for _, rel := range []string{pkgProposalCtl, pkgTransactionCtl, pkgConfigCtl, pkgMastershipCtl, pkgConnectionCtl, pkgTargetCtl} {
+		pkg := c.P.Pkg(rel)
+		if pkg == nil {
+			o.Undecided(rel, "package not loaded")
+			continue
+		}
+		info := pkg.TypesInfo
+		// watcher types of the package
+		watchers := map[string]bool{}
+		scope := pkg.Types.Scope()
+		for _, name := range scope.Names() {
+			tn, ok := scope.Lookup(name).(*types.TypeName)
+			if !ok {
+				continue
+			}
+			if _, isStruct := tn.Type().Underlying().(*types.Struct); !isStruct {
+				continue
+			}
+			ms := types.NewMethodSet(types.NewPointer(tn.Type()))
+			start, stop := ms.Lookup(pkg.Types, "Start"), ms.Lookup(pkg.Types, "Stop")
+			if start == nil || stop == nil {
+				continue
+			}
+			if sig, ok := start.Type().(*types.Signature); ok && sig.Params().Len() == 1 && strings.Contains(sig.Params().At(0).Type().String(), "controller.ID") {
+				watchers[name] = true
+			}
+		}
+		var ctor *engine.FuncInfo
+		for _, fi := range c.P.FuncsOf(pkg) {
+			if fi.Decl.Name.Name == "NewController" && fi.Decl.Recv == nil {
+				ctor = fi
+			}
+		}
+		if ctor == nil {
+			o.Undecided(rel, "NewController not found")
+			continue
+		}
+		params := map[types.Object]bool{}
+		for _, f := range ctor.Decl.Type.Params.List {
+			for _, n := range f.Names {
+				params[info.Defs[n]] = true
+			}
+		}
+		registered := map[string]bool{}
+		reconcilers := 0
+		checkLit := func(call *ast.CallExpr, what string) string {
+			if len(call.Args) != 1 {
+				return ""
+			}
+			u, ok := ast.Unparen(call.Args[0]).(*ast.UnaryExpr)
+			if !ok {
+				return ""
+			}
+			lit, ok := u.X.(*ast.CompositeLit)
+			if !ok {
+				return ""
+			}
+			t := info.TypeOf(lit)
+			nt, _ := t.(*types.Named)
+			st, _ := t.Underlying().(*types.Struct)
+			if nt == nil || st == nil {
+				return ""
+			}
+			set := map[string]ast.Expr{}
+			for _, el := range lit.Elts {
+				if kv, ok := el.(*ast.KeyValueExpr); ok {
+					set[types.ExprString(kv.Key)] = kv.Value
+				}
+			}
+			for i := 0; i < st.NumFields(); i++ {
+				f := st.Field(i)
+				if _, isIface := f.Type().Underlying().(*types.Interface); !isIface {
+					continue
+				}
+				o.Eval(1)
+				v, ok := set[f.Name()]
+				fromParam := false
+				if ok {
+					if id, isID := ast.Unparen(v).(*ast.Ident); isID && params[info.Uses[id]] {
+						fromParam = true
+					}
+				}
+				if !fromParam {
+					o.Fail(&engine.Violation{Key: rel + ".NewController|" + nt.Obj().Name() + "." + f.Name() + " not set from a parameter", Pos: c.P.Pos(lit.Pos()), Func: ctor.Name(),
+						Msg: "the " + what + " " + nt.Obj().Name() + " is built without its " + f.Name() + " (an interface-typed dependency): it panics or sees nothing"})
+				}
+			}
+			return nt.Obj().Name()
+		}
+		ast.Inspect(ctor.Decl.Body, func(n ast.Node) bool {
+			call, ok := n.(*ast.CallExpr)
+			if !ok {
+				return true
+			}
+			sel, ok := call.Fun.(*ast.SelectorExpr)
+			if !ok {
+				return true
+			}
+			switch sel.Sel.Name {
+			case "Watch":
+				if name := checkLit(call, "watcher"); name != "" {
+					registered[name] = true
+					o.Site(c.P.Pos(call.Pos()) + " " + rel + " watches " + name)
+				}
+			case "Reconcile":
+				if name := checkLit(call, "reconciler"); name != "" {
+					reconcilers++
+					o.Site(c.P.Pos(call.Pos()) + " " + rel + " reconciles with " + name)
+				}
+			}
+			return true
+		})
+		for w := range watchers {
+			o.Eval(1)
+			if !registered[w] {
+				o.Fail(&engine.Violation{Key: rel + ".NewController|watcher " + w + " not registered", Pos: c.P.Pos(ctor.Decl.Pos()), Func: ctor.Name(),
+					Msg: "the package defines the watcher " + w + " but NewController does not register it: the events it maps never wake the controller"})
+			}
+		}
+		if reconcilers != 1 {
+			o.Fail(&engine.Violation{Key: rel + ".NewController|reconciler", Pos: c.P.Pos(ctor.Decl.Pos()), Func: ctor.Name(), Msg: fmt.Sprintf("NewController registers %d reconcilers, not one", reconcilers)})
+		}
+	}
 }
